@@ -10,8 +10,11 @@
     * `relativizeCode`         `ParseBaseIRI(b)` then `RelativizeIRI(v)` (iri/base_iri.go) with NOTHING
                                abstracted: `original = ParsedIRI.String()` of the base, the five indices from
                                `PIRI.baseIndices` (which runs the model of `Parse("/")`, `Parse("./")`), the
-                               candidate by the same index arithmetic as Model/Prefix.lean (`Prefix.candidate`,
-                               shared), and the verification step by `rb.parsed.Parse(rel)` / `String()` =
+                               candidate by the index arithmetic of `relativizeIRI` (`candidateCode`: as
+                               `Prefix.candidate`, every slice expression with its explicit `.panic`
+                               outcome, with the two bounds guards of patches/c13-fix-relativize-bounds.patch:
+                               bases such as "http:/a/b" print shorter than their own directory
+                               "http:///a/"), and the verification step by `rb.parsed.Parse(rel)` / `String()` =
                                `PIRI.ParsedIRI.parseRef` / `str` — the resolver the Go code calls, instead of
                                `Prefix.goResolve` (RFC 3986 plus two measured deviations, valid on a domain).
 
@@ -23,7 +26,7 @@ import RdfModel.Model.ParsedIRI
 import RdfModel.Model.Prefix
 namespace RdfModel.IriUnify
 open RdfModel RdfModel.GoUrlFull RdfModel.PIRI
-open RdfModel.Prefix (BaseIRI Outcome candidate)
+open RdfModel.Prefix (BaseIRI Outcome)
 
 /-! ### acceptance -/
 
@@ -71,10 +74,59 @@ def newBaseIRICode (p : ParsedIRI) : Option BaseIRI :=
            queryIndex := ix.query
            fragmentIndex := ix.fragment }
 
+/-- the last resort of `relativizeIRI`: `v[rb.rootIndex-1:]` -/
+def rootRelative (rootIndex : Nat) (v : Str) : Outcome :=
+  if rootIndex = 0 ∨ v.length < rootIndex - 1 then .panic
+  else .some (v.drop (rootIndex - 1))
+
+/-- the part of `relativizeIRI` after the `rb.original == v` test, for an absolute base -/
+def candidateAbs (rb : BaseIRI) (rootIndex directoryIndex : Nat) (v : Str) : Outcome :=
+  let n := rb.original.length
+  -- if len(v) > rb.resourceIndex && strings.HasPrefix(v, rb.original[0:rb.resourceIndex]) { switch v[rb.resourceIndex] … }
+  let sw : Option Outcome :=
+    if rb.resourceIndex < v.length then
+      if n < rb.resourceIndex then some .panic
+      else if (rb.original.take rb.resourceIndex).isPrefixOf v then
+        if v[rb.resourceIndex]? = some 0x23 then
+          -- case '#': if len(v) >= rb.directoryIndex { return v[rb.directoryIndex:], true }
+          (if directoryIndex ≤ v.length then some (.some (v.drop directoryIndex)) else Option.none)
+        else if v[rb.resourceIndex]? = some 0x3f then some (.some (v.drop rb.resourceIndex))
+        else Option.none
+      else Option.none
+    else Option.none
+  match sw with
+  | some o => o
+  | Option.none =>
+    -- if len(v) >= rb.directoryIndex && strings.HasPrefix(rb.original, v[:rb.directoryIndex])
+    if directoryIndex ≤ v.length ∧ (v.take directoryIndex).isPrefixOf rb.original = true then
+      let rel := v.drop directoryIndex
+      if rel = [] ∨ rel.head? = some 0x3f ∨ rel.head? = some 0x23 then .some ([0x2e, 0x2f] ++ rel) else .some rel
+    else
+      rootRelative rootIndex v
+
+/-- `(*BaseIRI).relativizeIRI`: the candidate reference -/
+def candidateCode (rb : BaseIRI) (v : Str) : Outcome :=
+  let n := rb.original.length
+  let first : Option Str :=
+    if n < v.length ∧ rb.fragmentIndex = Option.none ∧ rb.original.isPrefixOf v = true then
+      if v[n]? = some 0x23 then some (v.drop n)
+      else if rb.queryIndex = Option.none ∧ v[n]? = some 0x3f then some (v.drop n)
+      else Option.none
+    else Option.none
+  match first with
+  | some r => .some r
+  | Option.none =>
+    match rb.root with
+    | Option.none => .none
+    | some (rootIndex, directoryIndex) =>
+      if ¬ (rb.original.take (min rootIndex n)).isPrefixOf v = true then .none
+      else if rb.original = v then .some []
+      else candidateAbs rb rootIndex directoryIndex v
+
 /-- `(*BaseIRI).RelativizeIRI` with `rb.parsed = p`: the candidate, the "//" refusal and, for an absolute
     base, `resolved, err := rb.parsed.Parse(rel); if err != nil || resolved.String() != v { return "", false }` -/
 def relativizeP (p : ParsedIRI) (rb : BaseIRI) (v : Str) : Outcome :=
-  match candidate rb v with
+  match candidateCode rb v with
   | .some rel =>
     if [0x2f, 0x2f].isPrefixOf rel = true then .none
     else if rb.root.isSome then
